@@ -33,24 +33,26 @@ CLOSES = {"BTC": ["100", "31234.56"], "ETH": ["2.5", "1800"]}
 
 
 def equity_and_used(w, bal):
-    """independent valuation from what the public API reports and the bars fed"""
+    """independent valuation (in USD) from what the public API reports and the bars fed; valuing everything in USD
+    instead of the lending quote symbol only rescales both sides of the inequality by a positive price"""
     eq, used = ZERO, ZERO
     for s in w.symbols:
         b = bal[s]
         price = Decimal(1) if s == "USD" else w.last_close[[p for p in w.pairs if p.base_symbol == s][0]]
         net = b.available + b.hold - b.borrowed
         eq = eq + smax(ZERO, net) * price
-        used = used + b.borrowed * price * w.margin_req
+        used = used + b.borrowed * price * getattr(w, "req_by_symbol", {}).get(s, w.margin_req)
     return eq, used
 
 
 def borrow(ctx, path="create_loan", lend="margin", earlier=1, margin_req="0.5", min_interest="0", kind="limit",
-           side="buy"):
+           side="buy", lend_quote="USD", req_overrides=None, npairs=2):
     if margin_req == "symbolic":
         margin_req = ctx.dec("margin_requirement", 2, lo=0, hi=300)
     init = {"BTC": Decimal(0)} if earlier == "short" else None
-    w = World(ctx, props=(), lend=lend, npairs=2, closes=None, margin_req=margin_req, min_interest=min_interest,
-              subscribe=False, namounts=2, init=init, fee="none" if earlier == "short" else "pctmin")
+    w = World(ctx, props=(), lend=lend, npairs=npairs, closes=None, margin_req=margin_req, min_interest=min_interest,
+              subscribe=False, namounts=2, init=init, fee="none" if earlier == "short" else "pctmin",
+              lend_quote=lend_quote, req_overrides=req_overrides)
     # one bar per pair with a solver-chosen close
     for i, pair in enumerate(w.pairs):
         w.closes = CLOSES[pair.base_symbol]
@@ -124,6 +126,15 @@ def jobs(tier):
         js.append(Job("create_loan after a short sale req=%s" % req, "borrow",
                       dict(path="create_loan", margin_req=req, earlier="short"), validate_every=20, sample_every=50,
                       max_paths=200000, split=32))
+    # per-symbol lending conditions (BTC stricter than the default) and a lending quote symbol priced through the
+    # inverse pair (accounts valued in BTC with only BTC/USD bars)
+    for earlier in (0, 1):
+        js.append(Job("create_loan per-symbol requirement earlier=%d" % earlier, "borrow",
+                      dict(path="create_loan", margin_req="0.25", earlier=earlier, req_overrides={"BTC": "1.5"}),
+                      validate_every=20, sample_every=50, max_paths=200000))
+        js.append(Job("create_loan valued in BTC (inverse pair) earlier=%d" % earlier, "borrow",
+                      dict(path="create_loan", margin_req="0.5", earlier=earlier, lend_quote="BTC", npairs=1),
+                      validate_every=20, sample_every=50, max_paths=200000))
     js.append(Job("NoLoans", "borrow", dict(lend="none", earlier=0), validate_every=10, sample_every=20))
     if tier == "thorough":
         for earlier in (0, 1):
